@@ -1049,7 +1049,8 @@ def export_roundtrip(doc, fmt):
         if fmt == "mei":
             pt.save_mei(part, path)
         else:
-            pt.save_kern(part, path)
+            from partitura.io.exportkern import save_kern
+            save_kern(part, path)
         sc = pt.load_score(path)
     except Exception as ex:
         import traceback
